@@ -337,3 +337,5 @@ def check(run):
     r4_issuer_provenance(run)
     r5_default(run)
     r6_certs_filter(run)
+    from ..common_rules import memo_rule
+    memo_rule(run, "R7", {"mdstore", "sigver"}, "certificate and key lookups")
